@@ -28,7 +28,7 @@ META = {
 def find_cursor(fx, rep, crate):
     """anchor: the field of ReadConnection that is the start of the slice handed to the JSON decoder"""
     found = []
-    for body in C.impl_bodies(crate, RC):
+    for body in C.expanded_impl_bodies(crate, RC):
         for b, t in body.iter_terms('call'):
             n = mir.callee_name(t)
             if 'serde_json' in n and ('from_slice' in n or 'from_str' in n):
@@ -173,7 +173,7 @@ def check_crate(fx, rep, crate, tag):
                   {'end': op_str(end_op), 'searches': [C.where(body, b) for b, _ in searches]})
     # stores to the cursor
     n_stores = 0
-    for body in C.impl_bodies(crate, RC):
+    for body in C.expanded_impl_bodies(crate, RC):
         searches = None
         ordinal = 0
         for b, i, s in C.expand_phi_stores(body, C.field_stores(body, RC, cursor)):
@@ -232,7 +232,7 @@ def check_crate(fx, rep, crate, tag):
 
     # ---- R01.2 / R01.3 / R01.4 : the function containing the ReadHalf::read call
     readers = []
-    for body in C.impl_bodies(crate, RC):
+    for body in C.expanded_impl_bodies(crate, RC):
         for b, t in C.calls_to(body, trait='socket::ReadHalf', name='read'):
             readers.append((body, b, t))
     if not readers:
